@@ -127,6 +127,19 @@ def run_single(sched, with_pt, start):
                                progress_type="silent", **kw)
     if len(dyn3.states) != 1 or np.abs(np.array(dyn3.states)[0] - np.array(dyn.states)[-1]).max() > 1e-13:
         return np.array(dyn.states), "FINAL-ONLY-DIFFERS"
+    # the same Control object used again on a grid of half the time step: float time stamps on the coarse grid are
+    # grid points of the fine grid too, so the control must act at step 2k there
+    if not with_pt and sched and all(c[2] == "fgrid" for c in sched):
+        pre, post = {}, {}
+        for (st, sd, sp, mp) in sched:
+            tgt = pre if sd == "pre" else post
+            tgt[2 * st] = MAPS[mp] @ tgt[2 * st] if 2 * st in tgt else MAPS[mp]
+        p2 = R.half_props(H0, DT / 2)
+        ref2 = np.array(R.simulate(M.RHO_GEN2, [], lambda j, k: None, lambda k: p2, 2 * N, pre, post))
+        dyn4 = oq.compute_dynamics(oq.System(H0), M.RHO_GEN2, control=ctrl, start_time=start, dt=DT / 2, num_steps=2 * N,
+                                   progress_type="silent")
+        if np.abs(np.array(dyn4.states) - ref2).max() > TOL:
+            return np.array(dyn.states), "OTHER-GRID-DIFFERS"
     return np.array(dyn.states), buf.getvalue()
 
 
@@ -175,6 +188,10 @@ def worker(args):
                 continue
             got, printed = run_single(sched, with_pt, start)
             nruns += 2
+            if printed == "OTHER-GRID-DIFFERS":
+                out.append((f"single|{dcls}|stack{stack}|same-Control-on-a-grid-of-half-the-time-step-differs",
+                            f"schedule {sched} start={start}: the Control object used before with dt={DT} acts at the wrong "
+                            f"step when it is used again with dt={DT / 2}"))
             if printed == "FINAL-ONLY-DIFFERS":
                 out.append((f"single|{dcls}|stack{stack}|final-state-with-record_all=False-differs",
                             f"schedule {sched} pt={with_pt} start={start}: the only state returned with record_all=False is not "
